@@ -286,13 +286,15 @@ Fixpoint ress_eqb (a b : list (list N * bool)) : bool :=
 Inductive case :=
 | CNotify (d : data) (ca : nat) (va : view) (cb : nat) (vb : view) (keep two : bool) (ops : list uop)
           (with_cancel : bool) (sched : list N) (obs : list (list N))
-          (res_a res_b : list (list N * bool)).
+          (res_a res_b : list (list N * bool))
+| CNotifyOracleOnly (steps : N).   (* per-waiter cancellation: decided by the harness oracle alone *)
 
 Definition check_case (c : case) : bool :=
   match c with
   | CNotify d ca va cb vb keep two ops wc sched obs ra rb =>
     existsb (fun s => ress_eqb (rev (w_res (wa s))) ra && ress_eqb (rev (w_res (wb s))) rb)
             (follow two [init d ca va cb vb keep ops wc] sched obs)
+  | CNotifyOracleOnly _ => true
   end.
 
 Fixpoint mismatches_from (i : N) (cs : list case) : list N :=
